@@ -724,6 +724,41 @@ def p_eval_lim(cmds, lt, sq, ver, ap=0, aw=0):
     return None
 
 
+def exceeded_limits(cmds):
+    """the consensus resource limits a command list exceeds STATICALLY (written here, independent of the spec):
+    push size, counted op codes (> OP_16, executed or not), serialised script size"""
+    out = []
+    if any(isinstance(c, bytes) and len(c) > 520 for c in cmds):
+        out.append("push size 520")
+    if sum(1 for c in cmds if isinstance(c, int) and c > 96) > 201:
+        out.append("op count 201")
+    size = 0
+    for c in cmds:
+        if isinstance(c, int):
+            size += 1
+        else:
+            n = len(c)
+            size += n + (1 if n <= 75 else 2 if n < 256 else 3 if n < 65536 else 5)
+    if size > 10000:
+        out.append("script size 10000")
+    return out
+
+
+def p_limits(cmds, lt, sq, ver):
+    """Script.evaluate (flags off) against consensus WITH its resource limits (Spec/ConsensusLimits.v), with NO
+    restriction to the static bounds: the library must reject what consensus rejects on a limit.  It enforces none of
+    them: known finding K-C07-limits (C07_resource_limits_refuted)."""
+    want, within = spec("spec_eval_lim", cmds, lt, sq, ver, 0, 0)
+    if want == 2:
+        return None
+    got, exc = eval_outcome(cmds, lt, sq, ver, 0, 0)
+    if got == want:
+        return None
+    lims = exceeded_limits(cmds) or (["stack size 1000"] if not within else [])
+    return (f"Script.evaluate {'accepts' if got else 'rejects'}{' (raises ' + exc + ')' if exc else ''}, consensus with "
+            f"resource limits {'accepts' if want else 'rejects'}; limits exceeded by the script: {', '.join(lims) or 'none'}")
+
+
 # BIP342: the op codes that make a tapscript succeed unconditionally
 OP_SUCCESS = {80, 98} | set(range(126, 130)) | set(range(131, 135)) | {137, 138, 141, 142} | set(range(149, 154)) \
     | set(range(187, 255))
@@ -764,7 +799,8 @@ def p_tables():
 PROPS = {"codec_int": p_codec_int, "codec_bytes": p_codec_bytes, "op": p_op, "eval": p_eval,
          "eval_reuse": p_eval_reuse, "eval_seq": p_eval_seq, "op_seq": p_op_seq, "minimal_push": p_minimal_push,
          "op_code_to_number": p_op_code_to_number, "timelock_api": p_timelock_api, "tables": p_tables,
-         "eval_defaults": p_eval_defaults, "timelock_spec": p_timelock_spec, "eval_lim": p_eval_lim}
+         "eval_defaults": p_eval_defaults, "timelock_spec": p_timelock_spec, "eval_lim": p_eval_lim,
+         "limits": p_limits}
 
 
 def _impl_is_model(fn, args):
@@ -787,6 +823,22 @@ def classify(v):
         return "K-C07-2rot" if _impl_is_model("op", v["args"]) else None
     if v["name"] in ("eval", "eval_lim") and any(isinstance(c, int) and c == 113 for c in v["args"][0]):
         return "K-C07-2rot" if _impl_is_model("evaluate", v["args"]) else None
+    if v["name"] == "limits":
+        # K-C07-limits: exactly the failures of the predicate `limits` on a script that exceeds a resource limit
+        # (outside the static bounds of C07_limits_unreachable, so that a limit CAN fire), where the library accepts,
+        # limit-aware consensus rejects, the library still does what the Coq model of today's code does, and the
+        # consensus spec WITHOUT the limits does not reject either — i.e. the limit is the only reason
+        cmds, lt, sq, ver = v["args"]
+        if no_2rot(cmds) is False:
+            return None
+        want, within = spec("spec_eval_lim", cmds, lt, sq, ver, 0, 0)
+        nolim = spec("spec_eval", cmds, lt, sq, ver, 0, 0)
+        got = run_evaluate(cmds, lt, sq, ver, 0, 0)
+        if (not within and want == 0 and got == 1 and nolim in (1, 2)
+                and (exceeded_limits(cmds) or len(cmds) > 333)
+                and _impl_is_model("evaluate", [cmds, lt, sq, ver, 0, 0])):
+            return "K-C07-limits"
+        return None
     return None
 
 
@@ -1277,6 +1329,14 @@ def generate(ctx):
     fixed += [[81, 103], [81, 99, 81], [0, 99, 104, 104, 81], [0, 99, 99, 104, 81], [81, 106, 103], [0, 99, 103, 103], [81, 100],
               [b"\x01" * 521], [81] + [97] * 202, [81] * 1001, [b"\x01" * 520] * 20,
               [81] + [97] * 201, [81] * 1000, [81] * 333, [81] * 334, [b"\x01" * 520] * 19]
+    # K-C07-limits: one witness per limit through the predicate `limits` (library vs consensus WITH limits, no bounds),
+    # and the neighbours just inside each limit, where it must hold
+    for cmds in ([b"\x01" * 521], [81] + [97] * 202, [81] * 1001, [b"\x01" * 520] * 20):
+        ctx.label("limits/witness-beyond-limit")
+        yield ("prop", "limits", [cmds, 0, 0, 2])
+    for cmds in ([b"\x01" * 520], [81] + [97] * 201, [81] * 1000, [b"\x01" * 520] * 19, [81] * 333, [81, 82, 147]):
+        ctx.label("limits/neighbour-inside-limit")
+        yield ("prop", "limits", [cmds, 0, 0, 2])
     for cmds in fixed:
         ctx.label("program/fixed")
         for ap, aw in ((0, 0), (1, 1), (1, 0), (0, 1)):
